@@ -297,6 +297,27 @@ func genRequest(rng *rand.Rand, tok string, big bool) *genReq {
 			g.BodyLen = []int{1 << 20, 1<<20 + 1, 3<<20 + 17, 8 << 20}[rng.Intn(4)]
 		}
 		g.body = tokBytes(tok, "c02body", g.BodyLen)
+		if !used["content-type"] && rng.Intn(5) == 0 {
+			// form submissions: a body an intermediary could be tempted to parse (and thereby consume)
+			used["content-type"] = true
+			k := rng.Intn(3)
+			ct := []string{"application/x-www-form-urlencoded", "multipart/form-data; boundary=bnd" + tok, "application/x-www-form-urlencoded; charset=UTF-8"}[k]
+			if g.BodyLen > 0 && g.BodyLen < 100000 {
+				var form string
+				if k == 1 {
+					form = "--bnd" + tok + "\r\nContent-Disposition: form-data; name=\"backend\"\r\n\r\nv-" + tok + "\r\n--bnd" + tok + "--\r\n"
+				} else {
+					form = "backend=v-" + tok + "&a=1&b=%2F%3F&a=2"
+				}
+				for len(form) < g.BodyLen && k != 1 {
+					form += "&pad=" + tok
+				}
+				g.body = []byte(form)
+				g.BodyLen = len(g.body)
+			}
+			g.Fields = append(g.Fields, rawhttp.Field{Name: "Content-Type", Value: ct})
+			shape += "F"
+		}
 		g.Chunked = rng.Intn(2) == 0
 		if g.Chunked {
 			rest := g.BodyLen
@@ -357,7 +378,7 @@ func genRequest(rng *rand.Rand, tok string, big bool) *genReq {
 			fr = "chunked"
 		}
 	}
-	g.Class = fmt.Sprintf("%s|%s|hdr:%d%s|body:%s|%s|hop:%x", methodClass(g.Method), tclass, len(shape), boolStr(strings.Contains(shape, "R"), "+rep", "")+boolStr(strings.Contains(shape, "B"), "+big", ""), sizeClass(g.BodyLen), fr+boolStr(len(g.Trailers) > 0, "+trailers", ""), hopShape)
+	g.Class = fmt.Sprintf("%s|%s|hdr:%d%s|body:%s|%s|hop:%x", methodClass(g.Method), tclass, len(shape), boolStr(strings.Contains(shape, "R"), "+rep", "")+boolStr(strings.Contains(shape, "B"), "+big", "")+boolStr(strings.Contains(shape, "F"), "+form", ""), sizeClass(g.BodyLen), fr+boolStr(len(g.Trailers) > 0, "+trailers", ""), hopShape)
 	return g
 }
 
